@@ -46,6 +46,7 @@
 //       nav  <Input>  build OrangeParams from x and from rt(x), track 32 LCG rays through both
 //                     -> ok same <nsteps> | ok diff <ray> | err <kind>
 #include <cmath>
+#include <cstdlib>
 #include <fstream>
 #include <functional>
 #include <limits>
@@ -653,9 +654,12 @@ struct Unreachable
 };
 
 // The real import_zipped_surfaces runs into __builtin_unreachable() for "inv": do not call it.
+// (Set C19_CALL_UNREACHABLE=1 to call the real code anyway, in a throw-away process: used to
+// show what the release build actually does on such input.)
 static bool zipped_has_inv(json const& surfaces)
 {
-    if (!surfaces.is_object())
+    static bool const call_anyway = std::getenv("C19_CALL_UNREACHABLE") != nullptr;
+    if (call_anyway || !surfaces.is_object())
         return false;
     auto it = surfaces.find("types");
     if (it == surfaces.end() || !it->is_array())
@@ -928,7 +932,11 @@ int main()
     std::ios::sync_with_stdio(false);
     string line;
     while (std::getline(std::cin, line))
+    {
         std::cout << run_line(line) << "\n";
+        if (std::getenv("C19_CALL_UNREACHABLE"))
+            std::cout.flush();
+    }
     std::cout.flush();
     return 0;
 }
